@@ -54,6 +54,9 @@ structure Wire where
   /-- gzip only: bytes the decompressor hands out, and whether the compressed stream was complete and valid -/
   plain : Nat
   gzipOk : Bool
+  /-- the bytes handed to io.Copy are the bytes that were signed (their digest equals the signed hash); only
+      looked at when a signature was verified -/
+  digestOk : Bool
   deriving DecidableEq, Repr
 
 /-- What fetchFile sees. -/
@@ -67,6 +70,8 @@ structure Resp where
   got : Nat
   /-- err of io.Copy is not nil -/
   copyErr : Bool
+  /-- `verifiedHash.EqualRaw(hasher.Sum(nil))`: the digest of the bytes written equals the signed hash -/
+  digestOk : Bool
   deriving DecidableEq, Repr
 
 /-- Bytes the framing layer hands out and whether it ends with an error (unexpected EOF / reset). -/
@@ -78,13 +83,14 @@ def framed (w : Wire) : Nat × Bool :=
 
 /-- net/http as fetchFile sees it. -/
 def transport (w : Wire) : Resp :=
-  if !w.connects then { reqErr := true, status := 0, contentLength := 0, got := 0, copyErr := false }
+  if !w.connects then { reqErr := true, status := 0, contentLength := 0, got := 0, copyErr := false, digestOk := false }
   else if w.gzip then
-    { reqErr := false, status := w.status, contentLength := -1, got := w.plain, copyErr := (framed w).2 || !w.gzipOk }
+    { reqErr := false, status := w.status, contentLength := -1, got := w.plain, copyErr := (framed w).2 || !w.gzipOk,
+      digestOk := w.digestOk }
   else
     { reqErr := false, status := w.status,
       contentLength := (match w.framing with | .length l => (l : Int) | _ => -1),
-      got := (framed w).1, copyErr := (framed w).2 }
+      got := (framed w).1, copyErr := (framed w).2, digestOk := w.digestOk }
 
 /-- The server's message arrived completely and its length was announced: `Content-Length: l`, no transparent
     decompression, at least `l` body bytes arrived. -/
@@ -102,8 +108,6 @@ structure Verif where
   policy : Policy
   /-- fetchAndVerifySigFile succeeded (`verifiedHash != nil`) -/
   sigOk : Bool
-  /-- the digest of the bytes written equals the signed hash -/
-  hashOk : Bool
   deriving DecidableEq, Repr
 
 inductive Outcome where
@@ -135,7 +139,7 @@ def fetchDecision (v : Option Verif) (r : Resp) : Outcome :=
     | none => .publish false
     | some x =>
       if !x.sigOk then .publish false                 -- hasher == nil: nothing to compare, no signature file
-      else if x.hashOk then .publish true             -- sigFileData is not empty when verification succeeded
+      else if r.digestOk then .publish true             -- sigFileData is not empty when verification succeeded
       else if x.policy == Policy.require then .abort        -- "file does not match signed checksum"
       else .publish false                             -- hasher = nil: published without signature file
 
